@@ -69,6 +69,8 @@ def positions(rng, text):
         out.append(("end-of-line", ln, len(l)))
         out.append(("past-end-of-line", ln, len(l) + rng.randrange(1, 40)))
         for i, ch in enumerate(l):
+            if ch == ".":
+                out.append(("after-dot", ln, i + 1))
             if ord(ch) > 127:
                 out.append(("at-non-ascii", ln, i))
                 out.append(("after-non-ascii", ln, i + 1))
@@ -289,12 +291,13 @@ def run_history(acc, rng, hist_seed):
                     if rng.random() < 0.5 and text:
                         text = text[:i] + text[i + 1:]
                     else:
-                        text = text[:i] + rng.choice("abc {}()\"#$.,:\n \t/*é𝄞") + text[i:]
+                        # (single characters, now and then a scope prefix directly behind a multi-byte character)
+                        text = text[:i] + (rng.choice(["→x.", "é.", "𝄞lib0_a.", "→segments.", "€a.b."]) if rng.random() < 0.1 else rng.choice("abc {}()\"#$.,:\n \t/*é𝄞")) + text[i:]
                     if name in open_bufs:
                         send_change(name, text)
                     else:
                         send_open(name, text)
-            elif r < 0.29 and [n_ for n_ in names if n_ not in open_bufs and n_ != "main.asm"]:
+            elif r < 0.29 and "main.asm" in open_bufs and [n_ for n_ in names if n_ not in open_bufs and n_ != "main.asm"]:
                 # a file that is not open in the editor changes on disk (another program, a workspace edit applied to a closed
                 # file); the next change of an open buffer makes the server look again
                 name = rng.choice([n_ for n_ in names if n_ not in open_bufs and n_ != "main.asm"])
